@@ -1028,7 +1028,11 @@ def _in_precondition(preds, Rr, Xr, Tr):
 
 
 def _tie_free(a):
-    vals = list(a["table"].values())
+    sc = a["sc"]
+    if sc.get("op") == "setup":     # only the setup nodes compete in an explicit setup() run
+        vals = [a["table"]["n%d" % i] for i, s_ in enumerate(sc["specs"]) if s_.get("setup")]
+    else:
+        vals = list(a["table"].values())
     return len(set(vals)) == len(vals)
 
 
@@ -1038,8 +1042,10 @@ def _unique_order(sc):
     prio = [s["prio"] for s in sc["specs"]]
     cp = spec_cp(preds, prio)
     done, order = set(), []
-    while len(order) < n:
-        ready = [i for i in range(n) if i not in done and all(p in done for p in preds[i])]
+    # an explicit setup() runs the setup nodes only (their predecessors are setup nodes), ranked by the same table
+    part = [i for i in range(n) if sc["specs"][i].get("setup")] if sc.get("op") == "setup" else list(range(n))
+    while len(order) < len(part):
+        ready = [i for i in part if i not in done and all(p in done for p in preds[i])]
         b = max(ready, key=lambda i: cp[i])
         order.append(b)
         done.add(b)
